@@ -10,9 +10,9 @@ import (
 	"github.com/cbeuw/Cloak/internal/server/usermanager"
 )
 
-// VerifActivate runs the real userPanel.GetUser for a UID that is not active yet (fresh panel, no upload
+// VerifC18Activate runs the real userPanel.GetUser for a UID that is not active yet (fresh panel, no upload
 // goroutine): AuthenticateUser, then mux.MakeValve with the stored rates. A panic is reported, never swallowed.
-func VerifActivate(manager usermanager.UserManager, uid []byte) (res string, panicked string) {
+func VerifC18Activate(manager usermanager.UserManager, uid []byte) (res string, panicked string) {
 	panel := &userPanel{
 		Manager:          manager,
 		activeUsers:      make(map[[16]byte]*ActiveUser),
